@@ -969,6 +969,14 @@ static int32_t reconstruct_omitted_chunk(struct jls_core_s * self, uint16_t sign
             uint8_t value = ((uint8_t) roundf(mu32)) & 0x0F;
             value |= (value << 4);
             memset(d, value, sz_bytes);
+        } else if (signal_def->data_type == JLS_DATATYPE_I8) {
+            // constant signed blocks are omitted automatically, too
+            uint8_t value = (uint8_t) ((int8_t) roundf(mu32));
+            memset(d, value, sz_bytes);
+        } else if (signal_def->data_type == JLS_DATATYPE_I4) {
+            uint8_t value = ((uint8_t) ((int8_t) roundf(mu32))) & 0x0F;
+            value |= (value << 4);
+            memset(d, value, sz_bytes);
         } else if (signal_def->data_type == JLS_DATATYPE_U1) {
             uint8_t value = ((uint8_t) roundf(mu32)) & 0x01;
             if (value) {
